@@ -54,6 +54,73 @@ def render(results, fmt, via, lang):
         set_global_language_to(saved)
 
 
+class ReferenceRenderer(object):
+    """the stateless reference model: a process forked BEFORE the first operation of the history (it
+    holds the pristine results and pristine module state of the printers) that answers each request
+    from a fresh fork of itself, so nothing an earlier rendering did -- to the objects or to module
+    level state of depccg.printer -- can influence a reference output"""
+
+    def __init__(self, pristine):
+        import os
+        import pickle
+        self._req_r, self._req_w = os.pipe()
+        self._res_r, self._res_w = os.pipe()
+        self._pid = os.fork()
+        if self._pid == 0:
+            try:
+                os.close(self._req_w)
+                os.close(self._res_r)
+                inp = os.fdopen(self._req_r, 'rb')
+                out = os.fdopen(self._res_w, 'wb')
+                while True:
+                    head = inp.read(4)
+                    if len(head) < 4:
+                        break
+                    n = int.from_bytes(head, 'little')
+                    fmt, via, lang = pickle.loads(inp.read(n))
+                    r, w = os.pipe()
+                    pid = os.fork()
+                    if pid == 0:
+                        try:
+                            os.close(r)
+                            data = pickle.dumps(render(copy.deepcopy(pristine), fmt, via, lang))
+                            with os.fdopen(w, 'wb') as f:
+                                f.write(data)
+                        finally:
+                            os._exit(0)
+                    os.close(w)
+                    with os.fdopen(r, 'rb') as f:
+                        data = f.read()
+                    os.waitpid(pid, 0)
+                    out.write(len(data).to_bytes(4, 'little') + data)
+                    out.flush()
+            finally:
+                os._exit(0)
+        os.close(self._req_r)
+        os.close(self._res_w)
+        self._out = os.fdopen(self._req_w, 'wb')
+        self._inp = os.fdopen(self._res_r, 'rb')
+
+    def render(self, fmt, via, lang):
+        import pickle
+        data = pickle.dumps((fmt, via, lang))
+        self._out.write(len(data).to_bytes(4, 'little') + data)
+        self._out.flush()
+        n = int.from_bytes(self._inp.read(4), 'little')
+        if n == 0:
+            raise RuntimeError('HARNESS-ERROR: reference renderer died')
+        return pickle.loads(self._inp.read(n))
+
+    def close(self):
+        import os
+        try:
+            self._out.close()
+            self._inp.close()
+            os.waitpid(self._pid, 0)
+        except Exception:
+            pass
+
+
 class C18(ParserSessionProp):
     id = 'C18'
     families = ['en', 'en-seen', 'ja', 'ja-seen']
@@ -64,7 +131,8 @@ class C18(ParserSessionProp):
     rule = ('case = one history (length 1-12) of render(format, via to_string | via the encoder function) and '
             'set_language operations applied to the same result objects of an en or ja parse session (parses, n-best '
             'lists as returned or re-ordered by the caller, failure placeholders; annotator-style and bare tokens).  Reference model: the same call on a deep '
-            'copy of the pristine snapshot taken before the first operation.  Oracles after every operation, including '
+            'copy of the pristine snapshot, executed in a process forked before the first operation (pristine objects and '
+            'pristine module state of the printers).  Oracles after every operation, including '
             'operations that raise: snapshot of all shared objects unchanged (token keys, key order, values, tree fields, '
             'categories); output equals the reference output (same exception type if the reference raises).  Distinct = '
             'digest of (result digest, operation sequence); non-trivial = length >= 2 with >= 2 different formats.')
@@ -129,6 +197,7 @@ class C18(ParserSessionProp):
                         r.shuffle(resp)
                     bump(stats, 'probe:nbest_list_reordered_by_caller')
         pristine = copy.deepcopy(results)
+        reference = ReferenceRenderer(pristine)
         snap0 = snapshot(results)
         lang = spec['start_lang']
         log = []
@@ -149,7 +218,7 @@ class C18(ParserSessionProp):
             bump(stats, 'evaluations')
             bump(stats, 'render:' + h['format'])
             got = render(results, h['format'], h['via'], lang)
-            want = render(copy.deepcopy(pristine), h['format'], h['via'], lang)
+            want = reference.render(h['format'], h['via'], lang)
             log.append((h['format'], got[0], digest(got[1])))
             if got[0] == 'exc':
                 bump(stats, 'probe:operation_raised')
@@ -172,6 +241,7 @@ class C18(ParserSessionProp):
                 v['op_index'] = hi
                 result['violations'].append(v)
                 break
+        reference.close()
         result['log_digest'] = digest((result['log_digest'], log))
         return result
 
